@@ -8,6 +8,7 @@
     lexical class and content.
 """
 from __future__ import annotations
+import os
 from .. import common, docs, concretise, project, impl, tlc, vocab, mapreader, events
 
 RULE = ("events(mapreader(dumps(dict))) == events predicted by spec/Writer.tla (line kind, keyword, level, "
@@ -73,6 +74,34 @@ def check_doc(ck, conc, loads, dumps, hist, origin, quote='"'):
     if "__" in out and any(("__%s__" % k) in out for k in ("type", "position", "comments", "tokens", "verif")):
         ck.violation("C03|hidden-key-printed", "a __name__ key appears in the output", {"printed": out})
     return d
+
+
+def public_writers(ck, d, opts):
+    """dumps, dump and save (the three writers the property names) produce the text of the printer under the same options"""
+    import io
+    import mappyfile
+    ref = impl.PrettyPrinter(**opts).pprint(d)
+    outs = {}
+    try:
+        outs["dumps"] = mappyfile.dumps(d, **opts)
+        fp = io.StringIO()
+        mappyfile.dump(d, fp, **opts)
+        outs["dump"] = fp.getvalue()
+        fn = os.path.join(common.VERIF, "build", "c03_save.%d.map" % os.getpid())
+        os.makedirs(os.path.dirname(fn), exist_ok=True)
+        mappyfile.save(d, fn, **opts)
+        with open(fn, newline="", encoding="utf-8") as f:
+            outs["save"] = f.read()
+        os.unlink(fn)
+    except Exception as ex:  # noqa: BLE001
+        ck.violation("C03|writer-raised|%s" % type(ex).__name__, "a public writer raised %s: %s" % (type(ex).__name__, str(ex)[:100]), {"opts": opts})
+        return
+    ck.count(3)
+    for name, out in outs.items():
+        if out != ref:
+            ck.violation("C03|writer-differs|%s|%s" % (name, ",".join(sorted(k for k in opts))),
+                         "mappyfile.%s writes another text than the printer for the same dictionary and options %r" % (name, opts),
+                         {"opts": opts, "writer": name, "text": out[:2000], "printer_text": ref[:2000]})
 
 
 def editor_walks(n, seed, tag, ck, max_steps=10, max_edits=5):
@@ -216,6 +245,19 @@ def run(tier):
     quick = tier == "quick"
     loads = impl.loader(expand_includes=False)
     dumps = impl.dumper()
+    # history before the first dump of this process: objects of every type created for one MapServer version and
+    # a versioned validation ("what the dictionary says" must not depend on which calls came first)
+    import mappyfile
+    ver = [5.0, 6.0, 7.6, 8.0][seed % 4]
+    for t in sorted(vocab.get()["schema"]["types"]):
+        try:
+            mappyfile.create(t, version=ver)
+        except Exception:  # noqa: BLE001
+            pass
+    try:
+        mappyfile.validate(mappyfile.loads("MAP NAME 'x' LAYER NAME 'l' TYPE POINT CLASS STYLE WIDTH 1 END LABEL SIZE 8 END END END END"), version=ver)
+    except Exception:  # noqa: BLE001
+        pass
     if True:
         # (M) exhaustive: the Writer contract is balanced and separate_complex_types content-preserving on every
         # document of <= 2 builder actions over the whole vocabulary
@@ -243,8 +285,10 @@ def run(tier):
         # the content of the text must not depend on the layout options either
         lay = [{}, {"align_values": True, "indent": 2}, {"align_values": True, "indent": 1, "spacer": "\t"}, {"indent": 0},
                {"align_values": True, "indent": 3, "newlinechar": "\r\n"}, {"align_values": True, "indent": 0}][j % 6]
-        check_doc(ck, conc, ld, impl.dumper(quote=q, **lay), h, "walk", quote=q)
+        d = check_doc(ck, conc, ld, impl.dumper(quote=q, **lay), h, "walk", quote=q)
         ck.nontrivial(h[:-1])
+        if d is not None and j % 3 == 0:
+            public_writers(ck, d, dict(quote=q, **lay))
     ck.sample({"events": hs[0][-1]["events"][:5]})
     # edit histories through the dict API
     ne = 300 if quick else 5000
